@@ -838,7 +838,7 @@ package psatoken
 // the token's profile claim (C07): the eat_profile claim (key 265) if it is there, otherwise profile 1's
 // own profile claim (key -75000), otherwise none ("": profile 1 by default). Written from the statement:
 // a profile derived from profile 1 declares itself under -75000.
-//@ spec cborProfile(b Int) string = ite(cborHas265(b) && cborText265(b) != "", cborText265(b), ite(cborHasPsa(b), cborTextPsa(b), ""))
+//@ spec cborProfile(b Int) string = ite(cborHas265(b) && cborText265(b) != "", cborText265(b), ite(cborTopIsMap(b) && cborHasPsa(b), cborTextPsa(b), ""))
 
 // isCBORMap: the loop skips tag heads (major type 6) and tests major type 5. Its index / slice safety,
 // termination and frame are proved; that this IS "a map under its tags" for well-formed input is the
@@ -951,6 +951,12 @@ package psatoken
 //@   modifies nothing
 
 // ---------------------------------------------------------------- evidence.go
+
+//@ func IClaims.GetProfile
+//@   option interface=true
+//@   option also-implementors=true
+//@   ensures true
+//@   modifies nothing
 
 //@ func IClaims.GetInstID
 //@   option interface=true
